@@ -103,7 +103,40 @@ def h_generation(ctx: Ctx, cfg):
     ctx.require(nxt >= cur, "elitism:best-fitness-got-worse-across-a-generation", lambda: {"minimize": minimize, "current": [fit.value_of(i.genotype) for i in inds], "next": [fit.value_of(o.genotype) for o in out], "weights": [we, wn, wr]})
 
 
-HARNESSES = {"elitism": h_elitism, "helpers": h_helpers, "generation": h_generation}
+def h_run_monotone(ctx: Ctx, cfg):
+    """a real GP run whose step reserves an elitism slot: the best aggregate present in the
+    population never decreases from one generation to the next"""
+    from geneticengine.algorithms.gp.gp import GeneticProgramming
+    from geneticengine.algorithms.gp.population import Population
+    from geneticengine.evaluation.budget import EvaluationBudget
+
+    minimize = ctx.bool("minimize")
+    fit = SymFitness(ctx, TABLES[2])
+    problem = SingleObjectiveProblem(fit, minimize=minimize)
+    rep = TokRep()
+    P = cfg["P"]
+    step = ParallelStep([ElitismStep(), GenericMutationStep(1)], weights=[1, P - 1])
+    gp = GeneticProgramming(problem, EvaluationBudget(cfg["budget"]), rep, FreshRandom(ctx), population_size=P, step=step)
+    gens = {}
+    orig = Population.__init__
+
+    def spy(self, it, tracker, generation=-1):
+        orig(self, it, tracker, generation)
+        gens[generation] = list(self.individuals)
+
+    Population.__init__ = spy
+    try:
+        gp.search()
+    finally:
+        Population.__init__ = orig
+    ctx.reached()
+    best = {g: max(_agg(fit.value_of(i.genotype), minimize) for i in inds) for g, inds in gens.items()}
+    for g in sorted(best):
+        if g + 1 in best:
+            ctx.require(best[g + 1] >= best[g], "elitism:best-fitness-got-worse-across-a-generation", lambda: {"generation": g, "minimize": minimize, "before": [fit.value_of(i.genotype) for i in gens[g]], "after": [fit.value_of(i.genotype) for i in gens[g + 1]]})
+
+
+HARNESSES = {"run_monotone": h_run_monotone, "elitism": h_elitism, "helpers": h_helpers, "generation": h_generation}
 
 
 def obligations(tier: str):
@@ -118,5 +151,6 @@ def obligations(tier: str):
     add("elitism", "elitism_topk_iterator", M=M, form="iterator")
     add("elitism", "elitism_topk_duplicates", M=M, duplicates=True, table=2)
     add("helpers", "sort_best_is_better", M=M)
+    add("run_monotone", "gp_run_monotone_best", P=2, budget=4 if not T else 5, timeout=250)
     add("generation", "one_generation_monotone_best", M=2 if not T else 3, table=2, timeout=250)
     return obs
